@@ -68,6 +68,75 @@ def angular_discipline():
                 plain_methods=methods)
 
 
+def cache_protocol():
+    """Shape of the cache protocol in AngularGrid.__init__ (what the hand model `Aliasing.step` assumes):
+    which cache each method uses, that the key is the resolved degree, that a miss loads and stores only
+    under `if cache:`, that a hit hands back the stored pair."""
+    tree = ast.parse((SRC / "angular.py").read_text())
+    cls = next(n for n in tree.body if isinstance(n, ast.ClassDef) and n.name == "AngularGrid")
+    init = next(n for n in cls.body if isinstance(n, ast.FunctionDef) and n.name == "__init__")
+    body = [s for s in init.body if not (isinstance(s, ast.Expr) and isinstance(s.value, ast.Constant))]
+    # method normalisation and the if-chain choosing the cache
+    normalised = any(isinstance(s, ast.Assign) and ast.unparse(s) == "method = method.lower()" for s in body)
+    chain = next((s for s in body if isinstance(s, ast.If) and ast.unparse(s.test).startswith("method ==")), None)
+    if chain is None:
+        raise Unsupported("angular.AngularGrid.__init__: the if-chain choosing the cache was not found")
+    mapping, node = [], chain
+    idx_norm = next((i for i, s in enumerate(body) if isinstance(s, ast.Assign) and ast.unparse(s) == "method = method.lower()"), None)
+    if normalised and idx_norm > body.index(chain):
+        normalised = False
+    while True:
+        t = node.test
+        if not (isinstance(t, ast.Compare) and len(t.ops) == 1 and isinstance(t.ops[0], ast.Eq) and ast.unparse(t.left) == "method"
+                and isinstance(t.comparators[0], ast.Constant) and isinstance(t.comparators[0].value, str)):
+            raise Unsupported(f"angular.AngularGrid.__init__: cache chain test {ast.unparse(t)}")
+        if not (len(node.body) == 1 and isinstance(node.body[0], ast.Assign) and ast.unparse(node.body[0].targets[0]) == "cache_dict"
+                and isinstance(node.body[0].value, ast.Name)):
+            raise Unsupported(f"angular.AngularGrid.__init__: cache chain body {ast.unparse(node.body[0])[:80]}")
+        mapping.append((t.comparators[0].value, node.body[0].value.id))
+        if len(node.orelse) == 1 and isinstance(node.orelse[0], ast.If):
+            node = node.orelse[0]
+            continue
+        if not (len(node.orelse) == 1 and isinstance(node.orelse[0], ast.Raise)):
+            raise Unsupported("angular.AngularGrid.__init__: cache chain does not end in a raise")
+        break
+    # other assignments to cache_dict would change which cache is used
+    n_assign = sum(1 for n in ast.walk(init) if isinstance(n, ast.Assign) and any(ast.unparse(t) == "cache_dict" for t in n.targets))
+    if n_assign != len(mapping):
+        raise Unsupported("angular.AngularGrid.__init__: cache_dict assigned outside the method chain")
+    # the lookup
+    look = [s for s in body if isinstance(s, ast.If) and ast.unparse(s.test) in ("degree not in cache_dict", "degree in cache_dict")]
+    if len(look) != 1:
+        raise Unsupported("angular.AngularGrid.__init__: cache lookup `degree [not] in cache_dict` not found exactly once")
+    look = look[0]
+    miss, hit = (look.body, look.orelse) if ast.unparse(look.test) == "degree not in cache_dict" else (look.orelse, look.body)
+    resolve = [i for i, s in enumerate(body) if isinstance(s, ast.Assign) and ast.unparse(s.targets[0]) == "(degree, size)"
+               and ast.unparse(s.value).startswith("self._get_degree_and_size(")]
+    key_resolved = len(resolve) == 1 and resolve[0] < body.index(look) and not any(
+        isinstance(n, ast.Name) and n.id == "degree" and isinstance(n.ctx, ast.Store)
+        for s in body[resolve[0] + 1:] for n in ast.walk(s))
+    loads = [s for s in miss if isinstance(s, ast.Assign) and ast.unparse(s.targets[0]) == "(points, weights)"
+             and ast.unparse(s.value).startswith("self._load_precomputed_angular_grid(")]
+    stores = [s for s in miss if not (isinstance(s, ast.Assign) and s in loads)]
+    guarded = (len(loads) == 1 and len(stores) == 1 and isinstance(stores[0], ast.If) and ast.unparse(stores[0].test) == "cache"
+               and not stores[0].orelse and len(stores[0].body) == 1
+               and ast.unparse(stores[0].body[0]) in ("cache_dict[degree] = (points, weights)",))
+    unguarded = (len(loads) == 1 and len(stores) == 1 and ast.unparse(stores[0]) == "cache_dict[degree] = (points, weights)")
+    if not (guarded or unguarded):
+        raise Unsupported("angular.AngularGrid.__init__: the miss branch is not `load; if cache: cache_dict[degree] = (points, weights)`")
+    hit_ok = len(hit) == 1 and ast.unparse(hit[0]) == "points, weights = cache_dict[degree]"
+    if not hit_ok:
+        raise Unsupported("angular.AngularGrid.__init__: the hit branch is not `points, weights = cache_dict[degree]`")
+    # nothing else may touch cache_dict
+    uses = sum(1 for n in ast.walk(init) if isinstance(n, ast.Name) and n.id == "cache_dict")
+    if uses != len(mapping) + 3:
+        raise Unsupported(f"angular.AngularGrid.__init__: cache_dict used {uses} times, expected {len(mapping) + 3}")
+    return dict(mapping=mapping, normalised=normalised, key_resolved=key_resolved, guarded=guarded)
+
+
+CHECKS = {}     # class -> (order of assignment and zero check, strict comparison?, threshold); filled by b_machine()
+
+
 def b_machine():
     """-> per class: ('guarded'|'always', [methods calling set_maximum_parameter_b first], other writers of _b)"""
     tree = ast.parse((SRC / "rtransform.py").read_text())
@@ -86,13 +155,43 @@ def b_machine():
         def is_zero_check(s):
             return isinstance(s, ast.If) and all(isinstance(x, ast.Raise) for x in s.body) and not s.orelse
 
+        def zero_check(st, about):
+            """`if np.abs(<about>) < c: raise ...` -> (strict?, c)"""
+            t = st.test
+            if not (isinstance(t, ast.Compare) and len(t.ops) == 1 and isinstance(t.ops[0], (ast.Lt, ast.LtE))
+                    and isinstance(t.comparators[0], ast.Constant) and isinstance(t.comparators[0].value, (int, float))
+                    and ast.unparse(t.left) in tuple(f"np.abs({a})" for a in about) + tuple(f"abs({a})" for a in about)):
+                raise Unsupported(f"rtransform.{cls.name}.set_maximum_parameter_b: check not recognised: {ast.unparse(t)}")
+            return isinstance(t.ops[0], ast.Lt), float(t.comparators[0].value)
+
+        def block_shape(blk):
+            """-> ('assign-then-check' | 'check-then-assign' | 'no-check', strict, threshold) or None"""
+            if blk and is_assign_max(blk[0]) and all(is_zero_check(x) for x in blk[1:]):
+                if len(blk) == 1:
+                    return ("no-check", True, 0.0)
+                if len(blk) != 2:
+                    raise Unsupported(f"rtransform.{cls.name}.set_maximum_parameter_b: several checks")
+                return ("assign-then-check",) + zero_check(blk[1], ("self.b", "self._b"))
+            # repaired order: m = np.max(x); if np.abs(m) < c: raise; self._b = m
+            if len(blk) == 3 and isinstance(blk[0], ast.Assign) and isinstance(blk[0].targets[0], ast.Name) \
+                    and ast.unparse(blk[0].value) in (f"np.max({arg})", f"{arg}.max()", f"np.amax({arg})") and is_zero_check(blk[1]) \
+                    and isinstance(blk[2], ast.Assign) and ast.unparse(blk[2].targets[0]) == "self._b" \
+                    and ast.unparse(blk[2].value) == blk[0].targets[0].id:
+                return ("check-then-assign",) + zero_check(blk[1], (blk[0].targets[0].id,))
+            if len(blk) == 2 and is_zero_check(blk[0]) and is_assign_max(blk[1]):
+                return ("check-then-assign",) + zero_check(blk[0], (ast.unparse(blk[1].value),))
+            return None
+
         if len(body) == 1 and isinstance(body[0], ast.If) and ast.unparse(body[0].test) in ("self.b is None", "self._b is None") \
-                and not body[0].orelse and is_assign_max(body[0].body[0]) and all(is_zero_check(s) for s in body[0].body[1:]):
+                and not body[0].orelse and block_shape(body[0].body) is not None:
             shape = "guarded"
-        elif body and is_assign_max(body[0]) and all(is_zero_check(s) for s in body[1:]):
+            check = block_shape(body[0].body)
+        elif block_shape(body) is not None:
             shape = "always"
+            check = block_shape(body)
         else:
             raise Unsupported(f"rtransform.{cls.name}.set_maximum_parameter_b: body not recognised: {ast.unparse(setter)[:200]}")
+        CHECKS[cls.name] = check
         callers, writers, nocall = [], [], []
         for m in cls.body:
             if not isinstance(m, ast.FunctionDef) or m.name in ("__init__", "set_maximum_parameter_b"):
@@ -145,12 +244,36 @@ def generate():
     parts.append(f"/-- branch `method in {d['plain_methods']}`: `super().__init__(points…, weights…)`; other branch: weights rescaled. -/")
     parts.append(f"def discipline : Discipline := ⟨{tb(d['plain'][0])}, {tb(d['plain'][1])}, {tb(d['scaled'][0])}, {tb(d['scaled'][1])}⟩\n")
     parts.append("def plainMethods : List String := [" + ", ".join(f'"{m}"' for m in d["plain_methods"]) + "]\n")
+    cp = cache_protocol()
+    parts.append("/-- the cache `AngularGrid.__init__` uses for each (lower-cased) method name -/")
+    parts.append("def cacheOfMethod : List (String × String) := [" + ", ".join(f'("{a}", "{b}")' for a, b in cp["mapping"]) + "]\n")
+    parts.append("/-- `method = method.lower()` precedes the choice of the cache -/")
+    parts.append(f"def methodNormalised : Bool := {tb(cp['normalised'])}\n")
+    parts.append("/-- the key `degree` is the one resolved by `_get_degree_and_size` and is not reassigned before the lookup / store -/")
+    parts.append(f"def keyResolvedBeforeLookup : Bool := {tb(cp['key_resolved'])}\n")
+    parts.append("/-- on a miss the loaded pair is stored only under `if cache:` -/")
+    parts.append(f"def storeGuardedByCacheFlag : Bool := {tb(cp['guarded'])}\n")
     for cls, (shape, callers, writers, nocall) in bm.items():
         parts.append(f"/-- `{cls}.set_maximum_parameter_b`: new value of the remembered scale given the maximum `mx` of the grid it sees. -/")
         if shape == "guarded":
             parts.append(f"def setMaxB_{cls} {{K : Type}} (b : Option K) (mx : K) : Option K :=\n  match b with\n  | none => some mx\n  | some v => some v\n")
         else:
             parts.append(f"def setMaxB_{cls} {{K : Type}} (_b : Option K) (mx : K) : Option K := some mx\n")
+        order, strict, thr = CHECKS[cls]
+        parts.append(f"/-- the same with the rejection of a scale that is too small (`{order}`: "
+                     + ("the scale is assigned *before* the check, so a rejected call leaves it set" if order == "assign-then-check"
+                        else "a rejected call leaves the state as it was" if order == "check-then-assign" else "there is no check")
+                     + "): new state, and whether `ValueError` is raised. -/")
+        none_case = {"assign-then-check": "(some mx, tooSmall mx)", "no-check": "(some mx, false)",
+                     "check-then-assign": "if tooSmall mx then (none, true) else (some mx, false)"}[order]
+        if shape == "guarded":
+            parts.append(f"def setMaxBChecked_{cls} {{K : Type}} (tooSmall : K → Bool) (b : Option K) (mx : K) : Option K × Bool :=\n"
+                         f"  match b with\n  | none => {none_case}\n  | some v => (some v, false)\n")
+        else:
+            parts.append(f"def setMaxBChecked_{cls} {{K : Type}} (tooSmall : K → Bool) (_b : Option K) (mx : K) : Option K × Bool :=\n"
+                         f"  {none_case.replace('(none, true)', '(_b, true)')}\n")
+        parts.append(f"/-- the check is `np.abs(b) {'<' if strict else '<='} {thr!r}` -/")
+        parts.append(f"def bTooSmall_{cls} (x : Float) : Bool := x.abs {'<' if strict else '<='} {thr!r}\n")
         parts.append(f"/-- methods of `{cls}` that call it before anything else -/")
         parts.append(f"def bCallers_{cls} : List String := [" + ", ".join(f'"{m}"' for m in callers) + "]")
         parts.append(f"/-- methods of `{cls}` (other than the constructor and the setter) that assign the scale -/")
@@ -161,4 +284,715 @@ def generate():
     parts.append("/-- `load_atomic_gaussian_params` builds its two result arrays anew from the JSON lists on every call. -/")
     parts.append(f"def coulombLoaderFresh : Bool := {tb(cf)}\n")
     parts.append("end GridVerif.Gen.AngularCache\n")
-    return write_if_changed("AngularCache.lean", "\n".join(parts))
+    ch1, d1 = write_if_changed("AngularCache.lean", "\n".join(parts))
+    ch2, d2 = write_if_changed("ModuleState.lean", module_state_text())
+    return (ch1 or ch2), (d1 + d2)[:6000]
+
+
+# ==========================================================================================
+# Round 3: enumeration of every piece of state that outlives a call, from the AST of every
+# non-test module of src/grid  ->  Gen/ModuleState.lean
+#
+#   * module-level bindings whose value is not a literal constant (dict/list/set displays,
+#     comprehensions, calls such as np.array(...), names, arithmetic): `moduleObjects`, each with
+#       writers      (function, shape)  statements that change the object or rebind the global
+#       escapes      (function, shape)  places where the object itself (not an element of it)
+#                                       leaves the function: returned, stored, passed on, viewed
+#       elemReaders  functions reading elements (subscripts, .get/.items/.values, iteration)
+#   * function caches: decorators whose text mentions cache/lru/memo, imports of functools & co.
+#   * mutable default arguments, class-level non-constant attributes, `global` / `nonlocal`
+#   * instance attributes assigned outside `__init__` (memos, remembered parameters, setters)
+#     with the shape of each assignment, and for every memo the accessors handing it out
+#
+# A use that is not one of the shapes below raises `Unsupported` (a broken obligation).
+# ==========================================================================================
+MUTATING_METHODS = {"update", "clear", "pop", "popitem", "setdefault", "append", "extend", "insert", "remove", "sort",
+                    "reverse", "fill", "resize", "put", "itemset", "add", "discard", "partition", "setfield", "setflags",
+                    "byteswap", "__setitem__", "__delitem__", "__iadd__"}
+ELEM_METHODS = {"items", "keys", "values", "get", "index", "count", "tolist", "item"}
+NEW_METHODS = {"copy", "astype", "min", "max", "sum", "mean", "any", "all", "argmax", "argmin", "argsort", "nonzero",
+               "flatten", "round", "clip", "dot", "prod", "std", "var", "cumsum", "cumprod", "repeat", "conj", "tobytes",
+               "lower", "upper", "strip", "title", "format", "split", "join", "startswith", "endswith"}
+SCALAR_ATTRS = {"shape", "size", "ndim", "dtype", "nbytes", "itemsize"}
+VIEW_ATTRS = {"T", "reshape", "ravel", "view", "squeeze", "transpose", "flat", "real", "imag", "swapaxes", "data", "base",
+              "diagonal"}
+PURE_CALLS = {"len", "sorted", "list", "tuple", "dict", "set", "frozenset", "min", "max", "sum", "any", "all", "enumerate",
+              "zip", "isinstance", "str", "repr", "type", "bool", "float", "int", "print", "abs", "round", "reversed",
+              "np.array", "np.copy", "np.any", "np.all", "np.isnan", "np.max", "np.min", "np.amax", "np.amin", "np.sum",
+              "np.sort", "np.unique", "np.where", "np.isin", "np.searchsorted", "np.isfinite", "np.allclose",
+              "np.array_equal", "np.concatenate", "np.prod", "np.mean", "np.abs", "np.log", "np.exp", "np.sqrt",
+              "np.power", "np.nan_to_num", "np.argmin", "np.argmax", "np.argsort", "np.cumsum", "np.dot", "np.tile",
+              "np.repeat", "np.hstack", "np.vstack", "np.stack", "np.column_stack", "np.outer", "np.einsum",
+              "np.linalg.norm", "np.take", "np.bincount", "np.digitize", "np.interp", "np.size", "np.shape", "np.ndim"}
+ALIAS_CALLS = {"np.asarray", "np.asanyarray", "np.ascontiguousarray", "np.asfortranarray", "np.atleast_1d",
+               "np.atleast_2d", "np.squeeze", "np.ravel", "np.reshape", "np.transpose"}
+CACHE_WORDS = ("cache", "lru", "memo")
+CACHE_IMPORTS = {"functools", "cachetools", "joblib", "diskcache", "methodtools", "cachier", "weakref", "atexit", "shelve",
+                 "pickle", "threading", "contextvars"}
+
+
+def _modules():
+    # `_version.py` is written by the build backend and is not part of the repository
+    return sorted(p for p in SRC.glob("*.py") if p.name != "_version.py")
+
+
+def _const_value(e) -> bool:
+    """Literal constants and tuples / arithmetic of them: nothing a call can change."""
+    if isinstance(e, ast.Constant):
+        return True
+    if isinstance(e, ast.Tuple):
+        return all(_const_value(x) for x in e.elts)
+    if isinstance(e, ast.UnaryOp):
+        return _const_value(e.operand)
+    if isinstance(e, ast.BinOp):
+        return _const_value(e.left) and _const_value(e.right)
+    if isinstance(e, ast.JoinedStr):
+        return True
+    return False
+
+
+def _value_kind(e) -> str:
+    if e is None:
+        return "annotation-only"
+    if isinstance(e, ast.Dict):
+        return "dict"
+    if isinstance(e, ast.List):
+        return "list"
+    if isinstance(e, ast.Set):
+        return "set"
+    if isinstance(e, ast.DictComp):
+        return "dict-comprehension"
+    if isinstance(e, (ast.ListComp, ast.GeneratorExp)):
+        return "list-comprehension"
+    if isinstance(e, ast.SetComp):
+        return "set-comprehension"
+    if isinstance(e, ast.Call):
+        return "call:" + ast.unparse(e.func)
+    if isinstance(e, ast.BinOp):
+        return "arithmetic"
+    if isinstance(e, ast.UnaryOp):
+        return "arithmetic"
+    if isinstance(e, ast.Subscript):
+        return "subscript"
+    if isinstance(e, ast.Name):
+        return "name:" + e.id
+    if isinstance(e, ast.Attribute):
+        return "attribute:" + ast.unparse(e)
+    if isinstance(e, ast.Constant):
+        return "constant"          # only reached for rebindable globals (`X = None` + `global X`)
+    if isinstance(e, ast.Tuple):
+        return "tuple"
+    if isinstance(e, ast.Lambda):
+        return "lambda"
+    if isinstance(e, ast.IfExp):
+        return "conditional"
+    raise Unsupported(f"module-level value not classified: {ast.unparse(e)[:120]}")
+
+
+def _top_statements(body):
+    """Module-level statements, looking inside top-level if / try / with blocks."""
+    for s in body:
+        if isinstance(s, ast.If):
+            yield from _top_statements(s.body)
+            yield from _top_statements(s.orelse)
+        elif isinstance(s, ast.Try):
+            yield from _top_statements(s.body)
+            for h in s.handlers:
+                yield from _top_statements(h.body)
+            yield from _top_statements(s.orelse)
+            yield from _top_statements(s.finalbody)
+        elif isinstance(s, ast.With):
+            yield from _top_statements(s.body)
+        elif isinstance(s, (ast.For, ast.While)):
+            raise Unsupported(f"module-level loop at line {s.lineno}")
+        else:
+            yield s
+
+
+def _units(tree):
+    """-> [(qualified name, FunctionDef)] top-level functions and methods (nested defs stay inside their unit)."""
+    out = []
+    for s in _top_statements(tree.body):
+        if isinstance(s, (ast.FunctionDef, ast.AsyncFunctionDef)):
+            out.append((s.name, s))
+        elif isinstance(s, ast.ClassDef):
+            stack = [(s.name, s)]
+            while stack:
+                q, c = stack.pop()
+                for m in c.body:
+                    if isinstance(m, (ast.FunctionDef, ast.AsyncFunctionDef)):
+                        out.append((f"{q}.{m.name}", m))
+                    elif isinstance(m, ast.ClassDef):
+                        stack.append((f"{q}.{m.name}", m))
+    return out
+
+
+def _parents(root):
+    par = {}
+    for n in ast.walk(root):
+        for ch in ast.iter_child_nodes(n):
+            par[id(ch)] = n
+    return par
+
+
+def _globals_declared(fn):
+    return {nm for n in ast.walk(fn) if isinstance(n, ast.Global) for nm in n.names}
+
+
+def _stored_names(fn):
+    out = set()
+    for n in ast.walk(fn):
+        if isinstance(n, ast.Name) and isinstance(n.ctx, (ast.Store, ast.Del)):
+            out.add(n.id)
+        elif isinstance(n, ast.arg):
+            out.add(n.arg)
+    return out
+
+
+def _is_alias_expr(e, alias) -> bool:
+    """Does the expression evaluate to (possibly) the very object some name in `alias` refers to?"""
+    if isinstance(e, ast.Name):
+        return e.id in alias
+    if isinstance(e, ast.IfExp):
+        return _is_alias_expr(e.body, alias) or _is_alias_expr(e.orelse, alias)
+    if isinstance(e, ast.BoolOp):
+        return any(_is_alias_expr(v, alias) for v in e.values)
+    if isinstance(e, ast.NamedExpr):
+        return _is_alias_expr(e.value, alias)
+    if isinstance(e, ast.Call) and ast.unparse(e.func) in ALIAS_CALLS and e.args:
+        return _is_alias_expr(e.args[0], alias)
+    return False
+
+
+def _alias_closure(fn, start: set, modattr=None):
+    """Names of the unit that may refer to the object itself (flow-insensitive fixpoint)."""
+    alias = set(start)
+    changed = True
+    while changed:
+        changed = False
+        for n in ast.walk(fn):
+            pairs = []
+            if isinstance(n, ast.Assign):
+                for t in n.targets:
+                    pairs.append((t, n.value))
+            elif isinstance(n, ast.AnnAssign) and n.value is not None:
+                pairs.append((n.target, n.value))
+            elif isinstance(n, ast.NamedExpr):
+                pairs.append((n.target, n.value))
+            for t, v in pairs:
+                if isinstance(t, ast.Name):
+                    if t.id not in alias and (_is_alias_expr(v, alias) or (modattr and modattr(v))):
+                        alias.add(t.id)
+                        changed = True
+                elif isinstance(t, (ast.Tuple, ast.List)) and isinstance(v, (ast.Tuple, ast.List)) and len(t.elts) == len(v.elts):
+                    for tt, vv in zip(t.elts, v.elts):
+                        if isinstance(tt, ast.Name) and tt.id not in alias and (_is_alias_expr(vv, alias) or (modattr and modattr(vv))):
+                            alias.add(tt.id)
+                            changed = True
+    return alias
+
+
+def _classify_uses(fn, qual, alias, modattr, where, depth, resolver):
+    """Classify every occurrence of the object in one unit. -> (writers, escapes, elem_readers) as sets."""
+    writers, escapes, readers = set(), set(), set()
+    par = _parents(fn)
+
+    def occurrences():
+        for n in ast.walk(fn):
+            if isinstance(n, ast.Name) and n.id in alias and isinstance(n.ctx, ast.Load):
+                yield n
+            elif modattr and isinstance(n, ast.Attribute) and isinstance(n.ctx, ast.Load) and modattr(n):
+                yield n
+
+    def classify(node, hops=0):
+        p = par.get(id(node))
+        if p is None:
+            raise Unsupported(f"{where}:{qual}: use without context")
+        if isinstance(p, ast.Subscript) and p.value is node:
+            if isinstance(p.ctx, ast.Store):
+                writers.add((qual, "setitem"))
+            elif isinstance(p.ctx, ast.Del):
+                writers.add((qual, "delitem"))
+            else:
+                pp = par.get(id(p))
+                if isinstance(pp, ast.AugAssign) and pp.target is p:
+                    writers.add((qual, "setitem"))
+                readers.add(qual)
+            return
+        if isinstance(p, ast.Attribute) and p.value is node:
+            pp = par.get(id(p))
+            called = isinstance(pp, ast.Call) and pp.func is p
+            if p.attr in MUTATING_METHODS:
+                writers.add((qual, "method:" + p.attr))
+            elif p.attr in ELEM_METHODS and called:
+                readers.add(qual)
+            elif p.attr in NEW_METHODS and called:
+                pass
+            elif p.attr in SCALAR_ATTRS:
+                pass
+            elif p.attr in VIEW_ATTRS:
+                escapes.add((qual, "view:" + p.attr))
+            else:
+                raise Unsupported(f"{where}:{qual}: attribute use not classified: {ast.unparse(pp if called else p)[:100]}")
+            return
+        if isinstance(p, ast.Compare):
+            return                                   # `in`, `is None`, ==, <: a new bool / bool array
+        if isinstance(p, (ast.BinOp, ast.UnaryOp)):
+            return                                   # arithmetic builds a new object
+        if isinstance(p, ast.AugAssign):
+            if p.target is node:
+                writers.add((qual, "augassign"))
+            return
+        if isinstance(p, (ast.For, ast.comprehension)) and p.iter is node:
+            readers.add(qual)
+            return
+        if isinstance(p, ast.Call):
+            f = ast.unparse(p.func)
+            if node in p.args or any(k.value is node for k in p.keywords):
+                if f in PURE_CALLS:
+                    return
+                if f in ALIAS_CALLS:
+                    # the result may be the object itself: classified where the result goes
+                    gp = par.get(id(p))
+                    if isinstance(gp, (ast.Assign, ast.AnnAssign, ast.NamedExpr)):
+                        tgt = gp.targets[0] if isinstance(gp, ast.Assign) else gp.target
+                        if isinstance(tgt, ast.Name) and tgt.id in alias:
+                            return
+                    return classify(p, hops + 1)
+                callee = resolver(f) if resolver else None
+                if callee is not None and depth < 3:
+                    cq, cfn, cwhere = callee
+                    params = [a.arg for a in cfn.args.posonlyargs + cfn.args.args]
+                    if params and params[0] in ("self", "cls") and "." in f:
+                        params = params[1:]
+                    names = set()
+                    for i, a in enumerate(p.args):
+                        if a is node and i < len(params):
+                            names.add(params[i])
+                    for k in p.keywords:
+                        if k.value is node and k.arg:
+                            names.add(k.arg)
+                    if not names:
+                        escapes.add((qual, "argument:" + f))
+                        return
+                    sub_alias = _alias_closure(cfn, names)
+                    w, e, r = _classify_uses(cfn, cq, sub_alias, None, cwhere, depth + 1, resolver)
+                    writers.update(w)
+                    escapes.update(e)
+                    readers.update(r)
+                    return
+                escapes.add((qual, "argument:" + f))
+                return
+            raise Unsupported(f"{where}:{qual}: object used as the callee: {ast.unparse(p)[:100]}")
+        if isinstance(p, (ast.Return, ast.Yield, ast.YieldFrom)):
+            escapes.add((qual, "return"))
+            return
+        if isinstance(p, (ast.Tuple, ast.List, ast.Set, ast.Dict, ast.Starred)):
+            gp = par.get(id(p))
+            if isinstance(gp, (ast.Assign,)) and isinstance(p, (ast.Tuple, ast.List)) and gp.value is p and \
+                    all(isinstance(t, (ast.Tuple, ast.List)) and len(t.elts) == len(p.elts) for t in gp.targets):
+                k = p.elts.index(node)
+                for t in gp.targets:
+                    tt = t.elts[k]
+                    if not (isinstance(tt, ast.Name) and tt.id in alias):
+                        escapes.add((qual, "stored:" + ast.unparse(tt)[:40]))
+                return
+            if hops > 4:
+                raise Unsupported(f"{where}:{qual}: nested container use")
+            escapes.add((qual, "container"))
+            return
+        if isinstance(p, (ast.Assign, ast.AnnAssign, ast.NamedExpr)):
+            tgts = p.targets if isinstance(p, ast.Assign) else [p.target]
+            for t in tgts:
+                if isinstance(t, ast.Name) and t.id in alias:
+                    continue
+                escapes.add((qual, "stored:" + ast.unparse(t)[:40]))
+            return
+        if isinstance(p, (ast.IfExp, ast.BoolOp)):
+            if isinstance(p, ast.IfExp) and p.test is node:
+                return
+            return classify(p, hops + 1)
+        if isinstance(p, (ast.If, ast.While, ast.Assert)) and getattr(p, "test", None) is node:
+            return
+        if isinstance(p, ast.Expr):
+            return
+        if isinstance(p, (ast.JoinedStr, ast.FormattedValue)):
+            return
+        if isinstance(p, ast.keyword):
+            return classify_keyword(p, node)
+        if isinstance(p, ast.Slice) or (isinstance(p, ast.Subscript) and p.slice is node):
+            return                                   # used as an index of something else
+        raise Unsupported(f"{where}:{qual}: use not classified ({type(p).__name__}): {ast.unparse(p)[:100]}")
+
+    def classify_keyword(kw, node):
+        call = par.get(id(kw))
+        f = ast.unparse(call.func)
+        if f in PURE_CALLS:
+            return
+        escapes.add((qual, "argument:" + f))
+
+    for occ in occurrences():
+        classify(occ)
+    return writers, escapes, readers
+
+
+def module_state():
+    """Enumerate the state of every module. -> dict with the lists described above."""
+    trees = {}
+    for p in _modules():
+        import warnings
+        with warnings.catch_warnings():
+            warnings.simplefilter("ignore")
+            trees[p.stem] = ast.parse(p.read_text())
+    # ---- module-level bindings
+    objects = {}          # (module, name) -> dict(kind=..., node=...)
+    order = []
+    for mod, tree in trees.items():
+        for s in _top_statements(tree.body):
+            tv = []
+            if isinstance(s, ast.Assign):
+                for t in s.targets:
+                    tv.append((t, s.value))
+            elif isinstance(s, ast.AnnAssign):
+                tv.append((s.target, s.value))
+            elif isinstance(s, ast.AugAssign):
+                tv.append((s.target, s.value))
+            if isinstance(s, ast.Assign) and len(s.targets) > 1 and not _const_value(s.value):
+                raise Unsupported(f"{mod}: line {s.lineno}: several module-level names bound to one object: {ast.unparse(s)[:80]}")
+            for t, v in tv:
+                names = []
+                if isinstance(t, ast.Name):
+                    names = [(t.id, v)]
+                elif isinstance(t, (ast.Tuple, ast.List)):
+                    if isinstance(v, (ast.Tuple, ast.List)) and len(v.elts) == len(t.elts) and all(isinstance(x, ast.Name) for x in t.elts):
+                        names = [(x.id, vv) for x, vv in zip(t.elts, v.elts)]
+                    else:
+                        raise Unsupported(f"{mod}: module-level unpacking at line {s.lineno}")
+                else:
+                    raise Unsupported(f"{mod}: module-level assignment to {ast.unparse(t)[:60]} (line {s.lineno})")
+                for nm, val in names:
+                    key = (mod, nm)
+                    if key not in objects:
+                        objects[key] = dict(kind="annotation-only", const=True, rebound=False, nbind=0)
+                        order.append(key)
+                    if val is None:
+                        continue                     # a bare annotation binds nothing
+                    o = objects[key]
+                    o["nbind"] += 1
+                    o["rebound"] = o["nbind"] > 1
+                    if _const_value(val):
+                        if o["const"]:
+                            o["kind"] = "constant"
+                    else:
+                        o["const"] = False
+                        o["kind"] = _value_kind(val)
+    # globals rebound inside functions are state even when their initial value is a constant
+    rebinds = []
+    for mod, tree in trees.items():
+        for q, fn in _units(tree):
+            for g in sorted(_globals_declared(fn)):
+                rebinds.append((mod, q, g))
+                if (mod, g) not in objects:
+                    objects[(mod, g)] = dict(kind="created-by-global-statement", const=False, rebound=False, nbind=0)
+                    order.append((mod, g))
+                objects[(mod, g)]["const"] = False
+    nonlocals = [(mod, q, nm) for mod, tree in trees.items() for q, fn in _units(tree)
+                 for n in ast.walk(fn) if isinstance(n, ast.Nonlocal) for nm in n.names]
+    tracked = [k for k in order if not objects[k]["const"]]
+    # ---- where is each tracked object visible: its own module, and modules importing it
+    imports = {}         # (module, local name) -> (defining module, name)
+    modalias = {}        # (module, local name) -> grid module
+    for mod, tree in trees.items():
+        for n in ast.walk(tree):
+            if isinstance(n, ast.ImportFrom) and n.module and (n.module == "grid" or n.module.startswith("grid.") or n.level > 0):
+                src_mod = (n.module or "").split(".")[-1]
+                for a in n.names:
+                    if a.name == "*":
+                        continue
+                    if (src_mod, a.name) in objects:
+                        imports[(mod, a.asname or a.name)] = (src_mod, a.name)
+                    elif a.name in trees:
+                        modalias[(mod, a.asname or a.name)] = a.name
+            elif isinstance(n, ast.Import):
+                for a in n.names:
+                    if a.name.startswith("grid."):
+                        m = a.name.split(".")[-1]
+                        if m in trees:
+                            modalias[(mod, a.asname or a.name)] = m
+    result = []
+    for key in tracked:
+        dmod, name = key
+        W, E, R = set(), set(), set()
+        for mod, tree in trees.items():
+            local = None
+            if mod == dmod:
+                local = name
+            else:
+                local = next((ln for (m, ln), tgt in imports.items() if m == mod and tgt == key), None)
+            aliases_of_module = {ln for (m, ln), gm in modalias.items() if m == mod and gm == dmod}
+
+            def modattr(e, _al=aliases_of_module, _nm=name):
+                return (isinstance(e, ast.Attribute) and e.attr == _nm and isinstance(e.value, ast.Name) and e.value.id in _al) \
+                    or (isinstance(e, ast.Attribute) and e.attr == _nm and isinstance(e.value, ast.Attribute)
+                        and ast.unparse(e.value) in _al)
+            if local is None and not aliases_of_module:
+                continue
+            units = dict(_units(tree))
+
+            def resolver(fname, _units=units, _mod=mod):
+                # same-module functions and methods called as self.f / Class.f / f
+                base = fname.split(".")[-1]
+                if fname in _units:
+                    return (f"{_mod}.{fname}" if _mod != dmod else fname, _units[fname], _mod)
+                cands = [q for q in _units if q.split(".")[-1] == base and ("." in fname) and fname.split(".")[0] in ("self", "cls", q.split(".")[0])]
+                if len(cands) == 1:
+                    q = cands[0]
+                    return (f"{_mod}.{q}" if _mod != dmod else q, _units[q], _mod)
+                return None
+            # module-level code of the module itself
+            pseudo = ast.Module(body=[s for s in _top_statements(tree.body)
+                                      if not isinstance(s, (ast.FunctionDef, ast.AsyncFunctionDef, ast.ClassDef))], type_ignores=[])
+            scopes = [("<module>", pseudo)] + list(units.items())
+            for q, fn in scopes:
+                qual = q if mod == dmod else f"{mod}.{q}"
+                start = set()
+                if local is not None:
+                    if q != "<module>":
+                        glob = _globals_declared(fn)
+                        stored = _stored_names(fn)
+                        if local in stored and local not in glob:
+                            local_here = None        # shadowed by a local variable / parameter
+                        else:
+                            local_here = local
+                            if local in glob:
+                                for n in ast.walk(fn):
+                                    if isinstance(n, ast.Name) and n.id == local and isinstance(n.ctx, (ast.Store, ast.Del)):
+                                        W.add((qual, "global-rebind"))
+                    else:
+                        local_here = local
+                    if local_here:
+                        start.add(local_here)
+                has_attr = aliases_of_module and any(modattr(n) for n in ast.walk(fn) if isinstance(n, ast.Attribute))
+                if not start and not has_attr:
+                    continue
+                if not any((isinstance(n, ast.Name) and n.id in start) for n in ast.walk(fn)) and not has_attr:
+                    continue
+                alias = _alias_closure(fn, start, modattr if has_attr else None)
+                if q == "<module>":
+                    alias = set(start)   # module-level names are objects of their own
+                w, e, r = _classify_uses(fn, qual, alias, modattr if has_attr else None, mod, 0, resolver)
+                # stores through a qualified name (`angular.LEBEDEV_CACHE = {}`)
+                for n in ast.walk(fn):
+                    if isinstance(n, ast.Attribute) and isinstance(n.ctx, (ast.Store, ast.Del)) and has_attr and \
+                            n.attr == name and isinstance(n.value, ast.Name) and n.value.id in aliases_of_module:
+                        w.add((qual, "qualified-rebind"))
+                W |= w
+                E |= e
+                R |= r
+        # the defining statement itself is not a use
+        W = {x for x in W if x[0] != "<module>" or x[1] != "define"}
+        result.append(dict(module=dmod, name=name, kind=objects[key]["kind"], rebound=objects[key]["rebound"],
+                           writers=sorted(W), escapes=sorted(E), readers=sorted(R)))
+    # ---- function caches, suspicious imports, mutable defaults, class-level objects
+    fcaches, imps, defaults, classobjs = [], [], [], []
+    for mod, tree in trees.items():
+        for n in ast.walk(tree):
+            if isinstance(n, ast.Import):
+                for a in n.names:
+                    if a.name.split(".")[0] in CACHE_IMPORTS:
+                        imps.append((mod, a.name))
+            elif isinstance(n, ast.ImportFrom) and n.module and n.module.split(".")[0] in CACHE_IMPORTS:
+                for a in n.names:
+                    imps.append((mod, f"{n.module}.{a.name}"))
+        for q, fn in _units(tree):
+            for d in fn.decorator_list:
+                txt = ast.unparse(d)
+                if any(wd in txt.lower() for wd in CACHE_WORDS):
+                    fcaches.append((mod, q, txt))
+            for n in ast.walk(fn):
+                if isinstance(n, (ast.FunctionDef, ast.AsyncFunctionDef, ast.Lambda)):
+                    a = n.args
+                    for dflt in list(a.defaults) + [d for d in a.kw_defaults if d is not None]:
+                        if not _const_value(dflt) and not isinstance(dflt, (ast.Name, ast.Attribute)):
+                            defaults.append((mod, q, ast.unparse(dflt)[:60]))
+                if isinstance(n, ast.Attribute) and isinstance(n.ctx, ast.Store) and isinstance(n.value, ast.Name) \
+                        and n.value.id not in ("self", "cls"):
+                    # attribute stored on a function / module / other object: f.cache = ...
+                    if n.value.id in {u.split(".")[-1] for u, _ in _units(tree)}:
+                        fcaches.append((mod, q, f"function-attribute {ast.unparse(n)}"))
+        for c in [n for n in ast.walk(tree) if isinstance(n, ast.ClassDef)]:
+            for s in c.body:
+                tv = []
+                if isinstance(s, ast.Assign):
+                    tv = [(t, s.value) for t in s.targets]
+                elif isinstance(s, ast.AnnAssign) and s.value is not None:
+                    tv = [(s.target, s.value)]
+                for t, v in tv:
+                    if not _const_value(v):
+                        classobjs.append((mod, f"{c.name}.{ast.unparse(t)}", _value_kind(v)))
+    # ---- instance attributes assigned outside __init__
+    attrs, memos, setters = [], [], []
+    for mod, tree in trees.items():
+        for c in [n for n in ast.walk(tree) if isinstance(n, ast.ClassDef)]:
+            late = {}
+            methods = [m for m in c.body if isinstance(m, (ast.FunctionDef, ast.AsyncFunctionDef))]
+            for m in methods:
+                if m.name == "__init__":
+                    continue
+                par = _parents(m)
+                deco = [ast.unparse(d) for d in m.decorator_list]
+                assigned, reset = set(), set()
+                for n in ast.walk(m):
+                    if isinstance(n, ast.Attribute) and isinstance(n.ctx, (ast.Store, ast.Del)) and isinstance(n.value, ast.Name) \
+                            and n.value.id in ("self", "cls"):
+                        p_ = par.get(id(n))
+                        shape = "assign"
+                        if isinstance(p_, ast.Assign) and isinstance(p_.value, ast.Constant) and p_.value.value is None:
+                            shape = "reset-to-None"
+                        elif isinstance(p_, ast.AugAssign):
+                            shape = "augassign"
+                        elif isinstance(n.ctx, ast.Del):
+                            shape = "delete"
+                        q = p_
+                        while q is not None and not isinstance(q, (ast.FunctionDef, ast.AsyncFunctionDef)):
+                            if isinstance(q, ast.If) and shape == "assign" and \
+                                    ast.unparse(q.test) in (f"self.{n.attr} is None", f"self.{n.attr.lstrip('_')} is None"):
+                                shape = "fill-if-None"
+                            q = par.get(id(q))
+                        if any(d.endswith(".setter") for d in deco) and shape == "assign":
+                            shape = "setter"
+                        late.setdefault(n.attr, []).append((m.name, shape))
+                        (reset if shape in ("reset-to-None", "delete") else assigned).add(n.attr)
+                    elif isinstance(n, ast.Call) and ast.unparse(n.func) in ("setattr", "object.__setattr__", "self.__setattr__"):
+                        raise Unsupported(f"{mod}.{c.name}.{m.name}: attribute assigned through setattr")
+                    elif isinstance(n, ast.Attribute) and n.attr == "__dict__" and isinstance(n.value, ast.Name) and n.value.id == "self":
+                        raise Unsupported(f"{mod}.{c.name}.{m.name}: instance __dict__ used")
+                if assigned or reset:
+                    dele = []
+                    for n in ast.walk(m):
+                        if isinstance(n, ast.Call):
+                            f = ast.unparse(n.func)
+                            if f.endswith(".fset") and n.args and ast.unparse(n.args[0]) == "self":
+                                dele.append(f[:-len(".fset")])
+                            elif f.startswith("super()."):
+                                dele.append(f)
+                    fills = {a for a, us in late.items() if any(mm == m.name and sh == "fill-if-None" for mm, sh in us)}
+                    # a method that only fills a memo is not a setter
+                    if (assigned - fills) or reset:
+                        setters.append((mod, c.name, m.name, sorted(assigned - fills), sorted(reset), sorted(set(dele))))
+            for a, uses in late.items():
+                attrs.append((mod, c.name, a, sorted(set(uses))))
+            for a, uses in late.items():
+                if not any(sh == "fill-if-None" for _, sh in uses):
+                    continue
+                hand = []
+                for m in methods:
+                    for n in ast.walk(m):
+                        if not (isinstance(n, ast.Return) and n.value is not None):
+                            continue
+
+                        def is_attr(x, _a=a):
+                            return isinstance(x, ast.Attribute) and isinstance(x.value, ast.Name) and x.value.id == "self" and x.attr == _a
+                        vals = n.value.elts if isinstance(n.value, (ast.Tuple, ast.List)) else [n.value]
+                        for v in vals:
+                            if is_attr(v):
+                                hand.append((m.name, "itself"))
+                            elif isinstance(v, ast.Call) and ((isinstance(v.func, ast.Attribute) and v.func.attr == "copy" and is_attr(v.func.value))
+                                                              or (ast.unparse(v.func) in ("np.copy", "np.array") and v.args and is_attr(v.args[0]))):
+                                hand.append((m.name, "copy"))
+                            elif isinstance(v, ast.Call) and ast.unparse(v.func) in ALIAS_CALLS and v.args and is_attr(v.args[0]):
+                                hand.append((m.name, "itself"))
+                # what the memo is computed from: `self.<x>` read by the fill expression, following local names
+                reads, fill_in, fill_txt = set(), [], []
+                for m in methods:
+                    par = _parents(m)
+                    for n in ast.walk(m):
+                        if isinstance(n, ast.Attribute) and isinstance(n.ctx, ast.Store) and isinstance(n.value, ast.Name) \
+                                and n.value.id == "self" and n.attr == a and isinstance(par.get(id(n)), ast.Assign) \
+                                and any(mm == m.name and sh == "fill-if-None" for mm, sh in uses):
+                            val = par[id(n)].value
+                            if isinstance(val, ast.Constant):
+                                continue
+                            fill_in.append(m.name)
+                            fill_txt.append(ast.unparse(val)[:100])
+                            todo, seen = [val], set()
+                            while todo:
+                                e = todo.pop()
+                                for x in ast.walk(e):
+                                    if isinstance(x, ast.Attribute) and isinstance(x.value, ast.Name) and x.value.id == "self":
+                                        reads.add(x.attr)
+                                    elif isinstance(x, ast.Name) and x.id not in seen:
+                                        seen.add(x.id)
+                                        for y in ast.walk(m):
+                                            if isinstance(y, ast.Assign) and any(isinstance(t, ast.Name) and t.id == x.id
+                                                                                 or isinstance(t, (ast.Tuple, ast.List)) and any(isinstance(tt, ast.Name) and tt.id == x.id for tt in t.elts)
+                                                                                 for t in y.targets):
+                                                todo.append(y.value)
+                memos.append((mod, c.name, a, sorted(set(hand)), sorted(set(fill_in)), sorted(set(fill_txt)), sorted(reads - {a})))
+    return dict(objects=result, function_caches=sorted(fcaches), cache_imports=sorted(set(imps)), mutable_defaults=sorted(defaults),
+                class_objects=sorted(classobjs), global_rebinds=sorted(rebinds), nonlocals=sorted(nonlocals),
+                late_attrs=sorted(attrs), memos=sorted(memos), setters=sorted(setters))
+
+
+def _ls(x: str) -> str:
+    """Lean string literal."""
+    out = []
+    for ch in x:
+        if ch == "\\":
+            out.append("\\\\")
+        elif ch == '"':
+            out.append('\\"')
+        elif ch == "\n":
+            out.append("\\n")
+        elif 32 <= ord(ch) < 127:
+            out.append(ch)
+        else:
+            out.append("?")
+    return '"' + "".join(out) + '"'
+
+
+def _ll(xs, f=_ls) -> str:
+    return "[" + ", ".join(f(x) for x in xs) + "]"
+
+
+def _lp(p) -> str:
+    return "(" + ", ".join(_ls(x) for x in p) + ")"
+
+
+def module_state_text() -> str:
+    st = module_state()
+    parts = [HEADER.format(name="angular_cache", source="every module of src/grid (module-level bindings, decorators, default "
+                           "arguments, class bodies, `global`/`nonlocal`, instance attributes assigned outside __init__)")]
+    parts.append("import GridVerif.Model.Aliasing\n\nnamespace GridVerif.Gen.ModuleState\nopen GridVerif.Aliasing\n")
+    parts.append("/-- the modules that were read -/")
+    parts.append("def modules : List String := " + _ll([p.stem for p in _modules()]) + "\n")
+    parts.append("/-- every module-level binding whose value is not a literal constant, with every use of it in any function -/")
+    parts.append("def moduleObjects : List ModObj := [")
+    rows = []
+    for o in st["objects"]:
+        rows.append(f"  ⟨{_ls(o['module'])}, {_ls(o['name'])}, {_ls(o['kind'])},\n    {_ll(o['writers'], _lp)},\n    {_ll(o['escapes'], _lp)},\n    {_ll(o['readers'])}⟩")
+    parts.append(",\n".join(rows) + "]\n")
+    parts.append("/-- decorators mentioning cache / lru / memo, attributes stored on functions: `(module, function, text)` -/")
+    parts.append("def functionCaches : List (String × String × String) := " + _ll(st["function_caches"], _lp) + "\n")
+    parts.append("/-- imports of modules that provide caches or process-wide state: `(module, imported)` -/")
+    parts.append("def cacheImports : List (String × String) := " + _ll(st["cache_imports"], _lp) + "\n")
+    parts.append("/-- default arguments that are not literal constants or names: `(module, function, text)` -/")
+    parts.append("def mutableDefaults : List (String × String × String) := " + _ll(st["mutable_defaults"], _lp) + "\n")
+    parts.append("/-- class-body bindings whose value is not a literal constant: `(module, Class.attr, kind)` -/")
+    parts.append("def classObjects : List (String × String × String) := " + _ll(st["class_objects"], _lp) + "\n")
+    parts.append("/-- `global` statements: `(module, function, name)` -/")
+    parts.append("def globalRebinds : List (String × String × String) := " + _ll(st["global_rebinds"], _lp) + "\n")
+    parts.append("/-- `nonlocal` statements: `(module, function, name)` -/")
+    parts.append("def nonlocals : List (String × String × String) := " + _ll(st["nonlocals"], _lp) + "\n")
+    parts.append("/-- instance attributes assigned outside `__init__`: `(module, class, attribute, [(method, shape)])` -/")
+    parts.append("def lateAttrs : List (String × String × String × List (String × String)) := [")
+    parts.append(",\n".join(f"  ({_ls(m)}, {_ls(c)}, {_ls(a)}, {_ll(us, _lp)})" for m, c, a, us in st["late_attrs"]) + "]\n")
+    parts.append("/-- the lazily filled ones among them -/")
+    parts.append("def memos : List Memo := [")
+    parts.append(",\n".join(f"  ⟨{_ls(m)}, {_ls(c)}, {_ls(a)}, {_ll(h, _lp)}, {_ll(fi)}, {_ll(ft)}, {_ll(rd)}⟩"
+                            for m, c, a, h, fi, ft, rd in st["memos"]) + "]\n")
+    parts.append("/-- methods other than `__init__` that assign instance attributes (pure memo fills excluded) -/")
+    parts.append("def setters : List Setter := [")
+    parts.append(",\n".join(f"  ⟨{_ls(m)}, {_ls(c)}, {_ls(me)}, {_ll(a)}, {_ll(r)}, {_ll(d)}⟩" for m, c, me, a, r, d in st["setters"]) + "]\n")
+    parts.append("end GridVerif.Gen.ModuleState\n")
+    return "\n".join(parts)
